@@ -156,6 +156,7 @@ class Interp:
         self.max_steps = 400000
         self.write_log = None
         self.formula_mode = False
+        self._run_async_now = False
         self.summary_log = []
         self.pure_cache = {}
         self.post_hooks = {}
@@ -351,6 +352,12 @@ class Interp:
                         pass
             if defcls is None and "." in func.__qualname__:
                 defcls = self._defcls_of(func)
+        is_async = isinstance(fnode, ast.AsyncFunctionDef)
+        if is_async and not self._run_async_now:
+            from .values import Coro
+
+            return Coro(func, args, kwargs, defcls)
+        self._run_async_now = False
         if len(self.stack) > self.max_depth:
             raise Unsupported("call depth exceeded (recursion?)")
         frame = Frame(func.__qualname__, globs, parent=parent, defcls=defcls, func=func)
@@ -373,6 +380,16 @@ class Interp:
             return rv
         finally:
             self.stack.pop()
+
+    def run_coro(self, coro, node=None):
+        if coro.started:
+            raise Unsupported("coroutine awaited twice")
+        coro.started = True
+        self._run_async_now = True
+        try:
+            return self.call_function(coro.func, coro.args, coro.kwargs, defcls=coro.defcls, node=node)
+        finally:
+            self._run_async_now = False
 
     def verifying_key(self):
         return self.verifying
@@ -826,6 +843,14 @@ class Interp:
                 a = self.eval(node.body, frame)
                 b = self.eval(node.orelse, frame)
                 from .core import lift, to_any
+
+                if isinstance(a, tuple) and isinstance(b, tuple) and len(a) == len(b):
+                    out = []
+                    for x, y in zip(a, b):
+                        kx, tx = lift(x)
+                        ky, ty = lift(y)
+                        out.append(ops.mk(kx, z3.If(c, tx, ty)) if kx == ky else ops.mk("any", z3.If(c, to_any(x), to_any(y))))
+                    return tuple(out)
 
                 try:
                     ka, ta = lift(a)
